@@ -23,6 +23,7 @@ import (
 	"fmt"
 	"math/big"
 	"os"
+	"runtime"
 	"runtime/debug"
 	"runtime/pprof"
 	"sort"
@@ -1074,6 +1075,7 @@ func popcount(x int) int {
 func TestCheck(t *testing.T) {
 	log.Root().SetHandler(log.DiscardHandler())
 	debug.SetGCPercent(1000) // tiny live heap, very many short-lived tries
+	runtime.MemProfileRate = 0
 	run := ev.Start("exploration")
 	run.Rule = "order: (family, content set <=4 of 6 keys, value pattern, permutation, extra key, insert/delete positions, delete flavour, hashing mode); " +
 		"history/gc: every operation sequence up to the depth bound on a fresh trie+database; derive: list length x item kind; " +
@@ -1115,9 +1117,9 @@ func TestCheck(t *testing.T) {
 	timed("derive", func() { partDerive(run, rep) })
 	timed("sweep", func() { partSweep(run, rep, expired) })
 	timed("gc", func() { partGC(run, rep, expired) })
+	timed("history", func() { partHistory(run, rep, expired) })
 	timed("proof", func() { partProof(run, rep, expired) })
 	timed("order", func() { partOrder(run, rep, expired) })
-	timed("history", func() { partHistory(run, rep, expired) })
 
 	pprof.StopCPUProfile()
 	run.Set("cache_unloads_driven", trie.CacheUnloads()-unloads0)
@@ -1363,7 +1365,7 @@ func partSweep(run *ev.Run, rep *reporter, expired func() bool) {
 					sc := &script{secure: c.f.secure, mode: mode, steps: steps, universe: c.f.keys, proofs: true}
 					cnt++
 					if f := runScript(sc, nil); f != nil {
-						rep.report("sweep", fmt.Sprintf("fam=%s/mode=%d/len=%d", c.f.name, mode, l), f, withPart(scriptDetail(sc), "script"),
+						rep.report("sweep", fmt.Sprintf("fam=%s/mode=%d/%s", c.f.name, mode, lenBucket(l)), f, withPart(scriptDetail(sc), "script"),
 							func() *fail { return runScript(sc, nil) })
 					}
 				}
@@ -1376,6 +1378,18 @@ func partSweep(run *ev.Run, rep *reporter, expired func() bool) {
 		run.Cap(fmt.Sprintf("sweep: deadline, %d of %d cases skipped", capped.Load(), len(cases)))
 	}
 	run.Add("sweep_scripts", total.Load())
+}
+
+func lenBucket(l int) string {
+	switch {
+	case l < 28:
+		return "len<28"
+	case l <= 33:
+		return "len=28..33"
+	case l <= 55:
+		return "len=34..55"
+	}
+	return "len>55"
 }
 
 // ---- part: proof ------------------------------------------------------------------------------------------
@@ -1507,7 +1521,11 @@ func partHistory(run *ev.Run, rep *reporter, expired func() bool) {
 			}
 			continue
 		}
-		plans = append(plans, plan{f, 0, false, dFull})
+		d := dFull
+		if run.Quick() && f.name == "V" {
+			d = dFull - 1 // quick: the variable-length family one level shallower
+		}
+		plans = append(plans, plan{f, 0, false, d})
 		if dRed > dFull {
 			plans = append(plans, plan{f, 0, true, dRed})
 		}
